@@ -149,9 +149,13 @@ CHECKS = {
               "plans (hook H1); the off-circuit Poseidon hash and the transcript sponge are checked against the same definition. "
               "Sponge sessions: Hashes.tla holds the sponge state machine (absorb queue, squeeze position, permutation on rate overflow); "
               "MC_Sponge model-checks it and generates absorb/squeeze schedules, which are replayed on the CPU sponge and on the in-circuit "
-              "PoseidonChip sponge with every squeezed value exposed."),
+              "PoseidonChip sponge with every squeezed value exposed. RIPEMD-160: an executable definition from the original specification "
+              "(constants derived in the model as integer parts of 2^30 times square and cube roots; the two test vectors of the paper checked "
+              "as ASSUMEs; padding model-checked for every length) judges the stand-alone chip on every padding-boundary length, honest and "
+              "tampered. Variable-length Poseidon: the digest must be Poseidon of the payload for every payload length 0..M of vectors of capacity "
+              "4, 8, 12 whatever fills the rest of the vector (zero and non-zero fillers)."),
         design_ref="DESIGN.md 4/C07",
-        note=("Not covered: RIPEMD-160, the variable-length Poseidon gadget, partial-round skipping as such (only through results), "
+        note=("Not covered: partial-round skipping as such (only through results), "
               "the generation of the Poseidon constants; SHA3/Keccak/BLAKE2b have no TLA+ definition (reference crates); tamper plans "
               "are sampled (the large chips make tens of thousands of assignments)."),
         technique="TLA+/TLC: executable SHA-2 and Poseidon definitions over BigNat re-evaluate recorded gadget runs (honest and tampered via H1); padding model-checked",
